@@ -140,6 +140,7 @@ VH_NOINSTR int main(int argc, char** argv) {
   fiber_detach(reaper);
   reg(reaper);
   vr_note("init join %d %d %d", k, ntargets, nactors);
+  vr_note("spawn %d", ntargets + nactors + 1); /* for the runtime model: all harness fibers exist now */
   /* interleave the scheduling order a little: actors and targets alternate */
   for (int i = 0; i < ntargets || i < nactors; i++) {
     if (i < nactors) fiber_manager_schedule(fiber_manager_get(), actors[i]);
